@@ -38,11 +38,14 @@ struct Hooks {
     long stop_at_dircall = -1;
     long evals_at_stop  = -1;
     long cbs_at_stop    = -1;
+    long outer_started  = 0;  // ALM outer iterations started so far (= calls of eval_proj_multipliers, the first statement of the outer loop)
+    long outer_at_stop  = -1; // outer_started at the moment stop() was called
     std::function<void()> stopper;
     void on_eval() {
         if (evals == stop_at_eval && stopper) {
             evals_at_stop = evals;
             cbs_at_stop   = cbs;
+            outer_at_stop = outer_started;
             stopper();
         }
         ++evals;
@@ -51,6 +54,7 @@ struct Hooks {
         if (dircalls == stop_at_dircall && stopper) {
             evals_at_stop = evals;
             cbs_at_stop   = cbs;
+            outer_at_stop = outer_started;
             stopper();
         }
         ++dircalls;
@@ -120,6 +124,11 @@ struct VProblem : alpaqa::BoxConstrProblem<config_t> {
                 Hv += σ * Ji * Ji.dot(v);
             }
         }
+    }
+    // the first statement of every ALM outer iteration (never called by an inner solver): counted, then the library's projection
+    void eval_proj_multipliers(rvec y, real_t M) const {
+        ++H.outer_started;
+        alpaqa::BoxConstrProblem<config_t>::eval_proj_multipliers(y, M);
     }
     bool provides_eval_hess_L_prod() const { return provide_hess; }
     bool provides_eval_hess_ψ_prod() const { return provide_hess; }
@@ -297,6 +306,7 @@ void record(const Info &i) {
     if (H.cbs == H.stop_at_cb && H.stopper) {
         H.evals_at_stop = H.evals;
         H.cbs_at_stop   = H.cbs;
+        H.outer_at_stop = H.outer_started;
         H.stopper();
     }
     ++H.cbs;
@@ -515,7 +525,8 @@ int main() {
         } catch (std::exception &e) {
             j.s("exc", e.what());
         }
-        j.i("evals", H.evals).i("cbs", H.cbs).i("dircalls", H.dircalls).i("evals_at_stop", H.evals_at_stop).i("cbs_at_stop", H.cbs_at_stop);
+        j.i("evals", H.evals).i("cbs", H.cbs).i("dircalls", H.dircalls).i("evals_at_stop", H.evals_at_stop).i("cbs_at_stop", H.cbs_at_stop)
+            .i("outer_started", H.outer_started).i("outer_at_stop", H.outer_at_stop);
         std::string recs = "[";
         for (size_t a = 0; a < R.lines.size(); ++a) recs += (a ? "," : "") + R.lines[a];
         recs += "]";
